@@ -1,0 +1,24 @@
+//go:build verif
+
+package config
+
+import (
+	v1 "github.com/fatedier/frp/pkg/config/v1"
+	"github.com/fatedier/frp/pkg/msg"
+	"github.com/fatedier/frp/verif"
+)
+
+// NewProxyConfigurerFromMsg: a configuration or an error, never both nil. It
+// builds a new configuration object and writes nothing that existed before
+// (declared frame: the config methods it calls through the ProxyConfigurer
+// interface only touch that new object).
+//
+//verif:contract ~/pkg/config.NewProxyConfigurerFromMsg
+//verif:props C18
+//verif:modifies
+func verif_NewProxyConfigurerFromMsg(m *msg.NewProxy, serverCfg *v1.ServerConfig) {
+	mp0, name0 := serverCfg.MaxPortsPerClient, m.ProxyName
+	c, err := NewProxyConfigurerFromMsg(m, serverCfg)
+	verif.Ensures((err == nil) == (c != nil), "configuration_iff_no_error")
+	verif.Ensures(serverCfg.MaxPortsPerClient == mp0 && m.ProxyName == name0, "inputs_untouched")
+}
